@@ -91,8 +91,15 @@ func evalProgram(vm *r.VM, program *syntax.Program, varInputs r.ElementMap) (r.E
 	return value.NewNull(), nil
 }
 
+// maxCallDepth - number of nested calls a program may have in progress. A recursion without
+// an end would otherwise exhaust the Go stack, which ends the whole host process.
+const maxCallDepth = 50000
+
 func evalExecBlock(vm *r.VM, execBlock *syntax.ExecBlock, params []r.Element) (r.Element, error) {
 	defer verifEnterCall()()
+	if len(vm.GetCallStack()) > maxCallDepth {
+		return nil, zerr.CallDepthExceeded(maxCallDepth)
+	}
 	scope := vm.BeginScope()
 	defer scope.EndScope()
 
